@@ -116,7 +116,7 @@ func Parse(text string) []Report {
 		for _, p := range parts[1:] {
 			side := "outside-dst"
 			for _, m := range frameRe.FindAllStringSubmatch(p, -1) {
-				if strings.Contains(m[1], "github.com/dave/dst") {
+				if strings.Contains(m[1], "github.com/dave/dst") && !strings.Contains(m[1], "github.com/dave/dst/verifyield") {
 					fn := strings.TrimPrefix(strings.TrimPrefix(m[1], "github.com/dave/dst/"), "github.com/dave/dst")
 					file := m[2]
 					if j := strings.Index(file, "/.build/inst/"); j >= 0 {
